@@ -231,3 +231,68 @@ class DiffieHellmanBounded:
         R = curve_of(ec)
         P = R.mul(dU % ec.n, (QV[0], QV[1]))
         return result == _x963(P[0].to_bytes(ec.p_size, "big"), size, hf, shared_info)
+
+
+# ---------------------------------------------------------------- BIP375: silent payments over a psbt
+def sp_psbt_run(inputs, b_scan, b_spend, negate):
+    """the Signer of a BIP375 psbt hands each input's key to set_input_share (as given, or the
+    BIP340 negation when the library refuses that spelling), the shares are validated, the output
+    script is set, and the recipient scans the final transaction"""
+    from btclib import silent_payments as sp
+    from btclib.psbt import silent_payments as role
+    from btclib.psbt.psbt import Psbt
+    from btclib.psbt.psbt_in import PsbtIn
+    from btclib.psbt.psbt_out import PsbtOut
+    from btclib.script.witness import Witness
+    from btclib.tx.tx_out import TxOut
+    ins = []
+    spent = []
+    for k, (d, taproot) in enumerate(inputs):
+        P = C.mul(d, C.G)
+        spk = (b"\x51\x20" + P[0].to_bytes(32, "big")) if taproot else (b"\x00\x14" + hashlib.new("ripemd160", hashlib.sha256(sec_compressed(P)).digest()).digest())
+        spent.append((spk, P, taproot))
+        from btclib.bip32 import BIP32KeyOrigin
+        hd = {} if taproot else {sec_compressed(P): BIP32KeyOrigin(bytes(4), [k])}      # what BIP375 asks an Updater to add
+        ins.append(PsbtIn(witness_utxo=TxOut(100_000, spk), hd_key_paths=hd, previous_tx_id=bytes([k + 1]) * 32, output_index=k))
+    info = sec_compressed(C.mul(b_scan, C.G)) + sec_compressed(C.mul(b_spend, C.G))
+    psbt = Psbt(2, ins, [PsbtOut(amount=90_000, sp_v0_info=info)], 2, {}, tx_modifiable=0)
+    spelled = []
+    for k, (d, taproot) in enumerate(inputs):
+        first = (C.n - d) if negate else d
+        try:
+            role.set_input_share(psbt, k, first, aux=bytes(32))
+            spelled.append("first")
+        except BTClibValueError:
+            role.set_input_share(psbt, k, C.n - first, aux=bytes(32))
+            spelled.append("negated")
+    try:
+        role.assert_shares_as_valid(psbt)
+        proofs = True
+    except BTClibValueError:
+        proofs = False
+    role.set_output_scripts(psbt)
+    script = psbt.outputs[0].script_pub_key
+    keys = []
+    for (spk, P, taproot) in spent:
+        w = Witness([bytes(64)]) if taproot else Witness([bytes(71), sec_compressed(P)])
+        keys.append(sp.pub_key_from_input(spk, b"", w))
+    tweak = sp.tweak_data([i.prev_out for i in psbt.inputs], sp.pub_key_sum(keys))
+    found = sp.scan_outputs(b_scan, mult(b_spend), tweak, [script[2:]])
+    opened = [C.mul(sp.prv_key_from_tweak(b_spend, f.prv_key_tweak), C.G)[0].to_bytes(32, "big") == bytes(f.pub_key) for f in found]
+    return proofs, bytes(script), [bytes(f.pub_key) for f in found], opened
+
+
+def _gen_sp_psbt(rng):
+    nin = rng.randrange(1, 4)
+    return dict(inputs=[(rng.randrange(1, C.n), rng.random() < 0.6) for _ in range(nin)], b_scan=rng.randrange(1, C.n), b_spend=rng.randrange(1, C.n), negate=rng.random() < 0.5)
+
+
+@contract("contracts.c_protocols.sp_psbt_run", gen=_gen_sp_psbt, props="C16", n_quick=40, n_thorough=800,
+          rule="1..3 inputs of mixed p2tr (even and odd y private keys, given as d or n-d) / p2wpkh type, one silent-payment output")
+class SilentPaymentPsbtBounded:
+    """whatever spelling of a key set_input_share accepts, the DLEQ proofs it wrote verify and
+    the output script it leads to is found by the recipient's scanner and opened by its key"""
+
+    def post_paid_output_is_found(result):
+        proofs, script, found, opened = result
+        return proofs and script[:2] == b"\x51\x20" and found == [script[2:]] and opened == [True]
